@@ -520,6 +520,14 @@ func (o *objectGoReflect) equal(other objectImpl) bool {
 			if isContainer(k1) {
 				return o.fieldsValue == other.fieldsValue
 			}
+			if !o.fieldsValue.Comparable() || !other.fieldsValue.Comparable() {
+				// maps (with methods or with an unsupported key type) and interfaces holding uncomparable values
+				// cannot be compared with ==: fall back to identity.
+				if k1 == reflect.Map && o.fieldsValue.Type() == other.fieldsValue.Type() {
+					return o.fieldsValue.UnsafePointer() == other.fieldsValue.UnsafePointer()
+				}
+				return false
+			}
 			return o.fieldsValue.Interface() == other.fieldsValue.Interface()
 		}
 	}
